@@ -26,6 +26,7 @@ RULE = (
     "would accept but a guard rejects, or the rule would reject '' but the flag accepts); enumerated cases are "
     "distinct by construction."
     "Cells ending in a line feed (not fixed) and texts ending in '.0' are part of the matrix."
+    "Fixed cells too wide by blanks only; allowed characters declared twice around a field with an example."
 )
 ASSUMPTIONS = [
     "blank (U+0020) is always an allowed character in fixed format (padding)",
